@@ -438,17 +438,40 @@ Definition map_exchange_err (m : res unit) : res unit :=
   | x => x
   end.
 
+Definition jwe_is_jwt (e : jwe_entry) : bool :=
+  match e with EJwtEncode | EJwtDecode => true | _ => false end.
+(* encrypt_json attaches (and use-checks) the sender key before the recipient key *)
+Definition jwe_sender_first (e : jwe_entry) : bool :=
+  match e with EEncFlat | EEncGen | EEncFlatPre | EEncGenPre => true | _ => false end.
+
+(* jwt.encode / jwt.decode cannot pass a sender key *)
+Definition eff_sender (e : jwe_entry) (sender : option key) : option key :=
+  if jwe_is_jwt e then None else sender.
+
+(* _guess_sender_key: sender_key.check_use("enc"), whatever the algorithm *)
+Definition sender_use_gate (sender : option key) : res unit :=
+  match sender with Some s => check_use "enc" s | None => Ok tt end.
+
+(* the key-attaching part of the entry point: recipient key (guess_key + check_use, or
+   the key given to add_recipient + check_use) and sender key, in the order of the code *)
+Definition jwe_attach (e : jwe_entry) (src : keysrc) (alg : string) (k0 : key)
+           (sender : option key) : res key :=
+  let rcpt := if jwe_preattached e then do _ <- check_use "enc" k0; Ok k0
+              else do k <- guess_key src (jwe_is_enc e) alg k0;
+                   do _ <- check_use "enc" k; Ok k in
+  if jwe_sender_first e then do _ <- sender_use_gate sender; rcpt
+  else do k <- rcpt; do _ <- sender_use_gate sender; Ok k.
+
 (* mat = the recipient (and sender) material is the one the token was made
    for; otherwise key unwrapping / content decryption fails (DecodeError, or
    InvalidCEKLengthError for RSA1_5 implicit rejection) *)
 Definition jwe_run (e : jwe_entry) (src : keysrc) (alg enc : string) (k0 : key)
-           (sender : option key) (ek : epk) (mat : bool) : res unit :=
+           (sender0 : option key) (ek : epk) (mat : bool) : res unit :=
+  let sender := eff_sender e sender0 in
   match find_enc enc, find_jwe alg with
   | None, _ | _, None => Err (EJose UnsupportedAlgorithmError)
   | Some en, Some r =>
-      do k <- (if jwe_preattached e then Ok k0
-               else do k <- guess_key src (jwe_is_enc e) alg k0;
-                    do _ <- check_use "enc" k; Ok k);
+      do k <- jwe_attach e src alg k0 sender;
       if jwe_is_enc e then jwe_encrypt_alg r en k sender
       else do _ <- map_exchange_err (jwe_decrypt_alg r en k sender ek);
            if mat then Ok tt else Err (EJose DecodeError)
@@ -457,6 +480,14 @@ Definition jwe_run (e : jwe_entry) (src : keysrc) (alg enc : string) (k0 : key)
 End WithPrim.
 
 (* ---------- OctKey.import_key(text): the unsafe-secret warning ---------- *)
-(* value.startswith(POSSIBLE_UNSAFE_KEYS) *)
+(* bytes.lstrip(): leading space, \t, \n, \r, \x0b, \x0c are dropped *)
+Definition is_ws (c : N) : bool :=
+  (c =? 32) || (c =? 9) || (c =? 10) || (c =? 13) || (c =? 11) || (c =? 12).
+Fixpoint lstrip (t : bytes) : bytes :=
+  match t with
+  | c :: r => if is_ws c then lstrip r else t
+  | [] => []
+  end.
+(* value.lstrip().startswith(POSSIBLE_UNSAFE_KEYS) *)
 Definition oct_import_warns (text : bytes) : bool :=
-  existsb (fun p => is_prefix p text) possible_unsafe_keys.
+  existsb (fun p => is_prefix p (lstrip text)) possible_unsafe_keys.
